@@ -24,6 +24,25 @@ CLAIMS = {
         "small box + random up to 2^40 LPs; ownership laws also evaluated on the C output.",
    note=TB + "products lps*ranks and node_lps*threads below 2^64 (model is unbounded N); rank with zero LPs is outside the property.",
    tech="Coq proof (division arithmetic, all sizes) + differential correspondence of lp.c/lp.h with the extracted model"),
+ "C18": dict(cat="proof", ref="DESIGN.md §5 C18",
+   text="Theorems (Properties_C18.v, axiom-free): for all 2^64 raw generator outputs the integer half of Random() performs only defined "
+        "shifts and returns the bit pattern of a finite double in [0,1) (exponent field 959+floor(log2 u), exact mantissa), proved by arithmetic "
+        "on log2, not enumeration; floor(x*n) computed in binary64 (exact product, round-to-nearest-even on 53 bits, floor — modelled on integers) "
+        "is < n for every such x and n>=1, hence RandomRange in [min,max] and RandomRangeNonUniform in range; the generator step keeps a well-formed "
+        "state. Tie: real Random/RandomU64/RandomRange/RandomRangeNonUniform/random_lib_lp_init vs the extracted model on crafted states (raw output "
+        "0,1,2^k,2^k+-1,2^64-1, mantissa-truncation boundary) and random states, bit-exact incl. the four state words and a second LP's untouched state; "
+        "UBSan/ASan on. Partial: Poisson/Expent/Gamma/Normal/Zipf depend on libm and are checked against their contracts on the implementation only.",
+   note=TB + "non-negative doubles are ordered like their bit patterns; documented argument domain 0<=min<=max, max-min+1<=2^31-1; libm not modelled.",
+   tech="Coq proof (integer-exact binary64 arithmetic, all 2^64 outputs) + bit-exact differential correspondence with crafted generator states"),
+ "C19": dict(cat="proof", ref="DESIGN.md §5 C19",
+   text="Theorems (Properties_C19.v, axiom-free, all geometries, all sizes with width*height < 2^32, all sources/directions/generator states): a receiver "
+        "other than INVALID_DIRECTION is inside the topology and confirmed by IsNeighbor; CountDirections equals the number of fixed directions with a "
+        "receiver (grids, rings) / regions-1 / 1 / number of links; DIRECTION_RANDOM finds a neighbour whenever one exists (the Fisher-Yates shuffle is "
+        "proved a permutation, its draws in range by C18); purity holds by construction of the model. Tie: real topology library vs extracted model, "
+        "exhaustive over the small box of sizes for every source and direction, crafted generator states, repeat queries and two concurrent threads; "
+        "the four laws are also evaluated directly on the C answers.",
+   note=TB + "graph geometry: the cumulative-probability pick among adjacent regions is an oracle (candidate set and draw count modelled); mesh redraw loop on fuel.",
+   tech="Coq proof (32-bit grid arithmetic, permutation of the shuffle) + exhaustive small-size differential correspondence"),
 }
 
 PENDING_REASON = "check not built yet in this session (work in progress, see DESIGN.md §8 order of work); not claimed until its theorem and correspondence run"
